@@ -1740,6 +1740,10 @@ class Interval(Node):
 
     trim_pattern = re.compile(r"(^0+\.)|(\.0+$)|(^[0\-.: ]+[\-: ])|([\-:. ][0\-.: ]+$)")
 
+    def replace_table(self, current_table: Optional["Table"], new_table: Optional["Table"]) -> "Interval":
+        # an interval names no table; the terms that hold one ask every operand
+        return self
+
     def __init__(
         self,
         years: int = 0,
